@@ -360,7 +360,8 @@ class IntegrityChecker(object):
         cues = []
         lends = len(self.ds)
         if "index" in self.ds:
-            if not np.all(self.ds["index"] == np.arange(1, lends + 1)):
+            # (`np.array_equal` also handles an index of wrong length)
+            if not np.array_equal(self.ds["index"], np.arange(1, lends + 1)):
                 cues.append(ICue(
                     msg="The index feature is not enumerated correctly",
                     level="violation",
